@@ -2232,6 +2232,7 @@ class tensor:
             newsiz = np.concatenate(
                 (np.max((self.shape, bsiz[0:n] + 1), axis=0), bsiz[n:] + 1)
             ).astype(int)
+        before = (self.data, self.shape)
         if not np.array_equal(newsiz, self.shape):
             # We need to enlarge x.data.
             newData = np.zeros(shape=tuple(newsiz))
@@ -2242,10 +2243,16 @@ class tensor:
             self.data = newData
 
             self.shape = tuple(newsiz)
-        if isinstance(value, ttb.tensor):
-            self.data[key] = value.data
-        else:
-            self.data[key] = value
+        try:
+            if isinstance(value, ttb.tensor):
+                self.data[key] = value.data
+            else:
+                self.data[key] = value
+        except (ValueError, IndexError, TypeError):
+            # The value does not fit the region: a refused assignment leaves the
+            # tensor as it was (growth undone)
+            self.data, self.shape = before
+            raise
 
     def _set_subscripts(self, key, value):
         # Extract array of subscripts
@@ -2261,6 +2268,7 @@ class tensor:
                 (np.max((self.shape, bsiz[0:n] + 1), axis=0), bsiz[n:] + 1)
             ).astype(int)
 
+        before = (self.data, self.shape)
         if not np.array_equal(newsiz, self.shape):
             # We need to enlarge x.data.
             newData = np.zeros(shape=tuple(newsiz))
@@ -2273,10 +2281,15 @@ class tensor:
             self.shape = tuple(newsiz)
 
         # Finally we can copy in new data
-        if key.shape[0] == 1:  # and len(key.shape) == 1:
-            self.data[tuple(key[0, :])] = value
-        else:
-            self.data[tuple(key.transpose())] = value
+        try:
+            if key.shape[0] == 1:  # and len(key.shape) == 1:
+                self.data[tuple(key[0, :])] = value
+            else:
+                self.data[tuple(key.transpose())] = value
+        except (ValueError, IndexError, TypeError):
+            # A refused assignment leaves the tensor as it was (growth undone)
+            self.data, self.shape = before
+            raise
 
     def __getitem__(self, item):  # noqa: PLR0912
         """
